@@ -120,6 +120,47 @@ def cov_element(ctx, obs):
         okc = isinstance(first, ast.If) and isinstance(first.test, ast.Compare) and isinstance(first.test.ops[0], ast.NotIn) and \
             unparse(first.test.left) == unparse(l.target) and unparse(first.test.comparators[0]) == it.replace(p[0], p[1]) and isinstance(first.body[0], ast.Continue)
         ctx.check(rule, 'obs.py:_covariance_element#common-only[%s]' % kind, okc, 'names missing in the second observable are skipped', 'loop over %s starts with %s' % (it, unparse(first)[:80]), obs.loc(l))
+    # the building block: sum over the common configurations of the product of the two reduced fluctuation vectors, nothing else
+    # (fluctuations are deviations from the mean over ALL configurations of the chain; re-centring them on the common subset
+    # changes the covariance of observables on nested lists)
+    if obs.has_func('_covariance_element.calc_gamma'):
+        cg = obs.func('_covariance_element.calc_gamma')
+        cp = [a.arg for a in cg.args.args]
+        red = {}
+        for s_ in statements(cg):
+            if isinstance(s_, ast.Assign) and isinstance(s_.targets[0], ast.Name) and isinstance(s_.value, ast.Call) and call_name(s_.value) == '_reduce_deltas':
+                red[s_.targets[0].id] = [unparse(a_) for a_ in s_.value.args]
+        rets = [s_ for s_ in statements(cg) if isinstance(s_, ast.Return)]
+        key = 'obs.py:_covariance_element.calc_gamma#sum-of-products'
+        if len(rets) != 1 or len(cp) != 5:
+            ctx.unrec(rule, key, 'calc_gamma has %d returns / %d parameters' % (len(rets), len(cp)))
+        else:
+            import sympy as sp_
+            a_s, b_s = sp_.symbols('a b')
+            okred = red.get(cp[0]) == [cp[0], cp[2], cp[4]] and red.get(cp[1]) == [cp[1], cp[3], cp[4]]
+
+            def tr(e):
+                if isinstance(e, ast.Name) and e.id == cp[0]:
+                    return a_s
+                if isinstance(e, ast.Name) and e.id == cp[1]:
+                    return b_s
+                if isinstance(e, ast.Constant) and isinstance(e.value, (int, float)):
+                    return sp_.nsimplify(e.value)
+                if isinstance(e, ast.BinOp) and isinstance(e.op, (ast.Add, ast.Sub, ast.Mult)):
+                    x, y = tr(e.left), tr(e.right)
+                    return x + y if isinstance(e.op, ast.Add) else (x - y if isinstance(e.op, ast.Sub) else x * y)
+                if isinstance(e, ast.Call) and call_name(e) in ('mean', 'average') and len(e.args) == 1:
+                    return sp_.Function('mean')(tr(e.args[0]))
+                raise Unrecognised('cannot translate %s' % unparse(e))
+            v = rets[0].value
+            try:
+                if not (isinstance(v, ast.Call) and call_name(v) == 'sum' and len(v.args) == 1):
+                    raise Unrecognised('return is not a sum: %s' % unparse(v))
+                inner = sp_.expand(tr(v.args[0]))
+                ctx.check(rule, key, okred and sp_.simplify(inner - a_s * b_s) == 0, 'sum over the common configurations of delta1 * delta2 (both reduced to the common list)',
+                          'calc_gamma sums %s (with a, b the fluctuations reduced by %s): not the plain product of the fluctuations' % (inner, red), obs.loc(rets[0]))
+            except Unrecognised as e_:
+                ctx.unrec(rule, key, str(e_), obs.loc(rets[0]))
     # covobs term g1^T C g2
     mx = MatX(obs, f, inline=False)
     key = 'obs.py:_covariance_element#covobs-term'
@@ -312,6 +353,7 @@ def run(ctx):
 
 
 SELFTEST = [
+    ('gamma-recentred-on-subset', 'pyerrors/obs.py', "        return np.sum(deltas1 * deltas2)\n\n    if set(obs1.names)", "        return np.sum((deltas1 - np.mean(deltas1)) * deltas2)\n\n    if set(obs1.names)", 'C06-D2'),
     ('zero-covariance-by-threshold', 'pyerrors/obs.py', "        if gamma == 0.0:\n            continue\n\n        gamma_div = 0.0", "        if abs(gamma) < 1e-12:\n            continue\n\n        gamma_div = 0.0", 'C06-D2'),
     ('fill-wrong-pair', 'pyerrors/obs.py', "cov[i, j] = _covariance_element(obs[i], obs[j])", "cov[i, j] = _covariance_element(obs[i], obs[i])", 'C06-D1'),
     ('mirror-no-diag', 'pyerrors/obs.py', "cov = cov + cov.T - np.diag(np.diag(cov))", "cov = cov + cov.T", 'C06-D1'),
